@@ -404,6 +404,39 @@ theorem oob_same_schedule (s : Sched) (hi : 0 < s.interval) (hc : s.count > 0)
   rw [c0, c1]
   rfl
 
+/-! ### the integer event options reach the generator unchanged -/
+
+/-- **`<event>__start`, `count`, `duration`, `timescale`, `version`, `program_id`**: the canonical
+decimal text of *any* integer `z` (no bound on its magnitude – 2⁵³ is not special) is read as
+exactly `z` by `int_or_default_from_string` -/
+theorem evopt_exact (dflt z : Int) : parseEventInt dflt false (decimalOf z) = .ok z := by
+  unfold parseEventInt
+  have h := decimalOf_ne z
+  simp only [h.1, h.2, or_self, if_false, pyInt_decimalOf, Bool.false_eq_true, false_and]
+
+/-- **`<event>__interval`** (`positive_int_or_default_from_string`): read exactly when `≥ 1`,
+refused (`ValueError` → 400) otherwise -/
+theorem evopt_interval_exact (dflt z : Int) :
+    parseEventInt dflt true (decimalOf z) = if z < 1 then .valueError else .ok z := by
+  unfold parseEventInt
+  have h := decimalOf_ne z
+  simp only [h.1, h.2, or_self, if_false, pyInt_decimalOf, true_and]
+
+/-- an absent value (`''`, `'none'`) selects the default -/
+theorem evopt_default (dflt : Int) (positive : Bool) :
+    parseEventInt dflt positive [] = .ok dflt ∧
+    parseEventInt dflt positive ['n', 'o', 'n', 'e'] = .ok dflt := by
+  constructor <;> simp [parseEventInt]
+
+/-- decimal points and exponents are *refused*, never rounded: `'1000.0'`, `'9e4'` and an odd value
+above 2⁵³ written with a fraction are `ValueError`s, the odd value itself is exact -/
+example : parseEventInt 0 false "1000.0".toList = .valueError := by decide
+example : parseEventInt 0 false "9e4".toList = .valueError := by decide
+example : parseEventInt 0 false "9007199254740993.0".toList = .valueError := by decide
+example : parseEventInt 0 false "9007199254740993".toList = .ok 9007199254740993 := by decide
+example : parseEventInt 0 false " +1_000\n".toList = .ok 1000 := by decide
+example : decimalOf (-9007199254740993) = "-9007199254740993".toList := by decide
+
 /-! ### non-vacuity and negative witnesses -/
 
 /-- ping events every 10 ticks (timescale 100) from 25, five of them, emsg v0 -/
